@@ -323,13 +323,14 @@ func (g *gen) field(fieldName string, fieldType types.Type) (string, error) {
 		case types.Uint64:
 			return fmt.Sprintf("uint64(%s)", fieldName), nil
 		case types.Float32:
-			return fmt.Sprintf("uint64(%s.Float32bits(float32(%s)))", g.mathPkg(), fieldName), nil
+			// adding zero maps -0 to +0, which derived Equal considers equal.
+			return fmt.Sprintf("uint64(%s.Float32bits(float32(%s) + 0))", g.mathPkg(), fieldName), nil
 		case types.Float64:
-			return fmt.Sprintf("%s.Float64bits(float64(%s))", g.mathPkg(), fieldName), nil
+			return fmt.Sprintf("%s.Float64bits(float64(%s) + 0)", g.mathPkg(), fieldName), nil
 		case types.Complex64:
-			return fmt.Sprintf("(31 * ((31 * 17) + uint64(%s.Float32bits(real(%s))))) + uint64(%s.Float32bits(imag(%s)))", g.mathPkg(), fieldName, g.mathPkg(), fieldName), nil
+			return fmt.Sprintf("(31 * ((31 * 17) + uint64(%s.Float32bits(real(%s) + 0)))) + uint64(%s.Float32bits(imag(%s) + 0))", g.mathPkg(), fieldName, g.mathPkg(), fieldName), nil
 		case types.Complex128:
-			return fmt.Sprintf("(31 * ((31 * 17) + %s.Float64bits(real(%s)))) + %s.Float64bits(imag(%s))", g.mathPkg(), fieldName, g.mathPkg(), fieldName), nil
+			return fmt.Sprintf("(31 * ((31 * 17) + %s.Float64bits(real(%s) + 0))) + %s.Float64bits(imag(%s) + 0)", g.mathPkg(), fieldName, g.mathPkg(), fieldName), nil
 		case types.String, types.UntypedString:
 			return fmt.Sprintf("%s(%s)", g.GetFuncName(fieldType), fieldName), nil
 		}
